@@ -201,7 +201,7 @@ CHECKS = {
         'set (known finding). Tie to /repo: random and directed op trees are run against the real PGMCompiler with real with-blocks '
         'and a user exception at every position; written-or-not, exception class, token stream and dwell are compared with '
         'the model, and femto\'s file is parsed and run on the controller model (no controller error, rotation off, shutter '
-        'closed at the end, exposure only on written paths). SOURCE TIE (also re-checked on every run): harness/py2coq.py translates '
+        'closed at the end, exposure only on written paths); a second-file-of-one-compiler stream re-enters the context on one object and judges the second file the same way (Pgm/Reuse.v, C03_next_file_starts_clean, C03_reused_compiler). SOURCE TIE (also re-checked on every run): harness/py2coq.py translates '
         'the 28 bookkeeping methods of PGMCompiler from /repo/src/femto/pgmcompiler.py into Gallina (fail closed), coq/tie/PgmEquiv.v '
         'proves that the translated session - __enter__, any tree of API calls with Python-level arguments, exceptions anywhere, '
         '__exit__ - writes the same tokens, reports the same dwell and raises the same exception as the model (session_equiv), and '
